@@ -80,7 +80,7 @@ def main():
                 t0 = time.time()
                 while True:
                     left = rxq()
-                    if left == 0 or time.time() - t0 > 5:
+                    if left == 0 or time.time() - t0 > 10:
                         break
                     time.sleep(0.0002)
             except OSError:
